@@ -118,7 +118,7 @@ func Minimise(t *testing.T, bind *Binding, c *Case, job *Job, same func([]model.
 	// 4. drop instances, processors, rules; simplify attributes
 	for i := 0; i < len(best.Prog.Instances); {
 		cand := cloneCase(best)
-		cand.Prog.Instances = append(cand.Prog.Instances[:i], cand.Prog.Instances[i+1:]...)
+		cand.Prog.RemoveInstance(cand.Prog.Instances[i].ID)
 		if !try(cand) {
 			i++
 		}
@@ -145,6 +145,7 @@ func Minimise(t *testing.T, bind *Binding, c *Case, job *Job, same func([]model.
 			func(x *sdl.Instance) { x.Qual = "" },
 			func(x *sdl.Instance) { x.Kind = "" },
 			func(x *sdl.Instance) { x.Order = 0 },
+			func(x *sdl.Instance) { x.OrderRaw = nil },
 			func(x *sdl.Instance) { x.InitLookups = nil },
 			func(x *sdl.Instance) { x.Prewired = false },
 		} {
